@@ -69,6 +69,9 @@ structure Active where
   req : Req
   /-- `timeout: BoxFuture` — its deadline is fixed when it is first polled (`async fn delay_for`) -/
   deadline : Option Nat := none
+  /-- `verifier: Option<TSigVerifier>` is set (a signer is configured and `should_sign_message` held).
+  Frames are modelled unsigned, so `verifier.verify` of whatever is routed to this request fails. -/
+  signed : Bool := false
   deriving DecidableEq, Repr, Inhabited
 
 /-- the caller side of one `send_message` call -/
@@ -129,7 +132,9 @@ inductive SendResult where
 def errorCaller (r : Req) : Caller :=
   { req := r, assigned := none, chan := { queue := [.errOther], txClosed := true } }
 
-def send (s : State) (r : Req) (draws : List Id) : Outcome (State × SendResult) :=
+/-- `encodable`: does `request.to_vec()` succeed (a TXT character-string over 255 octets, for one, does not) -/
+def send (s : State) (r : Req) (draws : List Id) (encodable : Bool := true) (signed : Bool := false) :
+    Outcome (State × SendResult) :=
   if s.isShutdown then .panic "can not send messages after stream is shutdown"
   else if (s.caller? r).isSome then .ok (s, .bad)
   else if s.active.length ≥ s.maxActive then
@@ -138,11 +143,13 @@ def send (s : State) (r : Req) (draws : List Id) : Outcome (State × SendResult)
     match nextId s.activeIds draws with
     | none => .ok ({ s with callers := s.callers ++ [errorCaller r] }, .err)
     | some id =>
-      if s.outQ ≥ OUT_CAP then
+      -- `match request.to_vec() { Err(error) => return NetError::from(error).into() }`: nothing registered
+      if !encodable then .ok ({ s with callers := s.callers ++ [errorCaller r] }, .err)
+      else if s.outQ ≥ OUT_CAP then
         .ok ({ s with callers := s.callers ++ [errorCaller r] }, .err)
       else
         .ok ({ s with
-                active := s.active ++ [{ id := id, req := r }]
+                active := s.active ++ [{ id := id, req := r, signed := signed }]
                 callers := s.callers ++ [{ req := r, assigned := some id, chan := {} }]
                 outQ := s.outQ + 1 }, .sent id)
 
@@ -174,12 +181,16 @@ def closeAll : List Active → List Caller → List Caller
   | [], cs => cs
   | a :: as, cs => closeAll as (updChan cs a.req (·.completeWithError .errOther))
 
+/-- what is offered to the caller of `a` for a response frame: the response, or — the request was
+signed and the (unsigned) frame fails `verifier.verify` — the verification error -/
+def routed (a : Active) (id : Id) (tag : Nat) : Item := if a.signed then .errOther else .resp id tag
+
 /-- one decoded or undecoded message frame: route by id -/
 def route (active : List Active) (cs : List Caller) (parses isResponse : Bool) (id : Id) (tag : Nat) :
     List Caller :=
   if parses && isResponse then
     match active.find? (·.id == id) with
-    | some a => updChan cs a.req (·.trySend (.resp id tag))
+    | some a => updChan cs a.req (·.trySend (routed a id tag))
     | none => cs            -- "unexpected request_id"
   else cs                   -- "error decoding message"
 
@@ -248,7 +259,7 @@ def cancel (s : State) (r : Req) : State :=
 /-! ### histories -/
 
 inductive Op where
-  | send (r : Req) (draws : List Id)
+  | send (r : Req) (draws : List Id) (encodable : Bool := true) (signed : Bool := false)
   | deliver (f : Frame)
   | poll
   | recv (r : Req)
@@ -260,7 +271,7 @@ inductive Op where
 
 /-- one step; a panicking `send` (after shutdown) leaves the state as it was -/
 def step (s : State) : Op → State
-  | .send r draws => match send s r draws with
+  | .send r draws enc sg => match send s r draws enc sg with
     | .ok (s', _) => s'
     | _ => s
   | .deliver f => { s with inbox := s.inbox ++ [f] }
